@@ -244,7 +244,11 @@ func (w *wal) flush(batch WALBatch) error {
 
 func (w WALBatch) replay(fs *fileStore) error {
 	for _, row := range w {
-		fs._nextLSN = row.LSN
+		// LSNs are also taken by changes that are not logged (CREATE TABLE),
+		// so the counter read from the file header may already be ahead
+		if row.LSN > fs._nextLSN {
+			fs._nextLSN = row.LSN
+		}
 		node, err := fs.fetch(row.pageID)
 		if err != nil {
 			return err
